@@ -175,7 +175,8 @@ def run(run, P, units=None):
             run.oblige('R-SIZE-FILL', not bad, '%s:measure-equals-fill' % name)
             if bad:
                 c = bad[0]
-                loc = f['B'][fl[0]]['elems'][0]['loc'] if f['B'][fl[0]]['elems'] else f['loc']
+                hb = f['B'][fl[0]]
+                loc = (hb.get('term') or {}).get('loc') or (hb['elems'][0]['loc'] if hb['elems'] else f['loc'])
                 run.violation('R-SIZE-FILL', name, loc, 'measure-fill-disagree:%s' % ','.join('0x%02x' % x for x in bad[:4]),
                               'for byte 0x%02x%s the measuring loop counts %d byte(s) but the filling loop stores %d (%d byte values differ): the string is allocated from the '
                               'count, so the fill %s' % (c, " ('%s')" % chr(c) if 32 <= c < 127 else '', mt[c], ft[c], len(bad),
